@@ -122,6 +122,8 @@ func genInputValue(r *rand.Rand, t gen.T, depth int) ref.Value {
 // ---- directed compositions (single features cannot reach these)
 
 var c01Directed = []string{
+	// equality of containers does not depend on whether both operands are the same object
+	"f := func() { return 1 }\na := [1, f]\nb := a\nnan := 0.0 / 0.0\nm := {k: [f], n: nan}\nr := [a == a, a != a, a == b, m == m, m != m, m.k == m.k, [m] == [m], [nan] == [nan], {x: len} == {x: len}]\ng := func(x, y) { return x == y }\ns := [g(a, a), g(m, m), g([1, [2]], [1, [2]])]\nia := immutable(a)\nt := [ia == ia, ia != ia, immutable({k: f}) == immutable({k: f})]",
 	"a := [1, 2, 3, 4]; d := splice(a, 1, 9223372036854775807); e := splice([5, 6], 2, 9223372036854775807, 7); b := [a, d, e]",
 	// freeze reaches below values that are already immutable at the top
 	"src := immutable({limits: [1, 2], tags: {a: [1]}}); f := freeze(src); t := [is_immutable_array(f.limits), is_immutable_map(f.tags), is_immutable_array(f.tags.a)]; src.limits[0] = 9; q := [f.limits[0], src.limits[0]]",
